@@ -22,13 +22,31 @@ inductive Ev where
   | topFinish                          -- `span.Span().Finish()`: finish the top of the stack without popping
   | register | deregister | close
   | crash                              -- a panic reached the connection goroutine's top (caught by its barrier)
+deriving Repr, Inhabited, DecidableEq
+
+/-- what an executor can do to the span stack -/
+inductive SpanOp where
+  | start (name : Bytes)   -- `conn.StartSpan(name)`
+  | finish                 -- `conn.FinishSpan()`
 deriving Repr, Inhabited
 
+/-- Executors that only talk to the application's handler: handler calls, a result, or a Go panic. -/
+inductive UProg (α : Type) where
+  | ret (a : α)
+  | call (c : HCall) (k : HRes → UProg α)
+  | panic
+
+/-- Executors in general: additionally they may start and finish spans (nothing else is observable). -/
 inductive Prog (α : Type) where
   | ret (a : α)
   | call (c : HCall) (k : HRes → Prog α)
-  | emit (e : Ev) (k : Prog α)
+  | emit (s : SpanOp) (k : Prog α)
   | panic
+
+def UProg.lift {α : Type} : UProg α → Prog α
+  | .ret a => .ret a
+  | .call c k => .call c (fun r => (k r).lift)
+  | .panic => .panic
 
 namespace Prog
 
@@ -40,10 +58,14 @@ def bind {α β : Type} : Prog α → (α → Prog β) → Prog β
 
 /-- `defer conn.FinishSpan()`: the span is finished when the body returns *and* when it panics -/
 def andFinish {α : Type} : Prog α → Prog α
-  | ret a => emit .spanFinish (ret a)
+  | ret a => emit .finish (ret a)
   | call c k => call c (fun r => andFinish (k r))
   | emit e k => emit e (andFinish k)
-  | panic => emit .spanFinish panic
+  | panic => emit .finish panic
+
+def SpanOp.ev : SpanOp → Ev
+  | .start n => .spanStart n
+  | .finish => .spanFinish
 
 /-- Run against a script of handler results (call i gets the head of the script, which is then dropped
 unless it is the last entry: the last entry repeats; an empty script answers every call with a nil message
@@ -51,7 +73,7 @@ and no error).  Returns the events, the result (`none` = panicked) and the remai
 def run {α : Type} (view : ConnSt) : Prog α → List HRes → List Ev × Option α × List HRes
   | ret a, s => ([], some a, s)
   | panic, s => ([], none, s)
-  | emit e k, s => let (evs, a, s') := run view k s; (e :: evs, a, s')
+  | emit e k, s => let (evs, a, s') := run view k s; (SpanOp.ev e :: evs, a, s')
   | call c k, s =>
     let r := s.headD {}
     let s1 := match s with | _ :: (x :: xs) => x :: xs | other => other
